@@ -177,6 +177,16 @@ def gen_cases(ctx, n, prop):
                                ["sleep_ms", 20], ["pause"], ["sleep_ms", 30], ["progress"], ["pause"], ["sleep_ms", 30], ["progress"],
                                ["resume"], ["wait_until_done"]]
         cases.append(c)
+    if prop == "C10":
+        # every preset once with several chains that start from the same point of the same density:
+        # what still tells the chains apart is their random streams alone
+        presets = ["diag_nuts", "lowrank_nuts", "flow_nuts", "diag_mclmc", "lowrank_mclmc", "flow_mclmc"]
+        for k, pr in enumerate(presets):
+            if k < len(cases):
+                cases[k].update({"preset": pr, "num_chains": 3, "num_cores": r.choice([1, 2, 4]), "num_tune": 3, "num_draws": 4,
+                                 "script": [["wait_until_done"]], "alone": True})
+                cases[k].pop("random_init", None)
+                cases[k].pop("random_math", None)
     return cases
 
 
